@@ -95,6 +95,14 @@ func (x *Exec) loopMods(st *State, fn *ssa.Function, blocks map[*ssa.BasicBlock]
 				case *ssa.MapUpdate:
 					pc, vc := st.mapClasses(in.Map.Type().Underlying().(*types.Map))
 					mods[pc], mods[vc] = true, true
+				case *ssa.Next:
+					if !in.IsString {
+						if rg, ok := in.Iter.(*ssa.Range); ok {
+							if mt, ok := rg.X.Type().Underlying().(*types.Map); ok {
+								mods["ghost:$visited:"+sortOf(mt.Key())] = true
+							}
+						}
+					}
 				case ssa.CallInstruction:
 					c := in.Common()
 					if c.IsInvoke() {
@@ -129,6 +137,10 @@ func (x *Exec) loopMods(st *State, fn *ssa.Function, blocks map[*ssa.BasicBlock]
 						}
 						if mc, ok := c.Value.(*ssa.MakeClosure); ok {
 							scanFn(mc.Fn.(*ssa.Function), nil, d+1)
+							continue
+						}
+						if fc, ok := x.w.cs.Funcs["functype:"+namedKey(c.Value.Type())]; ok {
+							x.contractMods(st, fc, mods, &all)
 							continue
 						}
 						all = true
@@ -192,6 +204,11 @@ func pureNative(key string) bool {
 
 func (x *Exec) contractMods(st *State, fc *FuncContract, mods map[string]bool, all *bool) {
 	if fc.Pure {
+		return
+	}
+	if fc.ModAll && len(fc.ModExcept) > 0 && len(fc.Havocs) == 0 {
+		// everything except the fields of some struct types: recorded as a marker, resolved at the loop header
+		mods["\x00allexcept\x00"+strings.Join(fc.ModExcept, ",")] = true
 		return
 	}
 	if fc.ModAll || len(fc.Havocs) > 0 {
@@ -270,6 +287,15 @@ func (x *Exec) loopEnv(st *State, fr *Frame, h *ssa.BasicBlock, lc *LoopContract
 		if phi, ok := ins.(*ssa.Phi); ok {
 			if v, ok := fr.vals[phi]; ok && phi.Comment != "" {
 				vars[phi.Comment] = v
+			}
+		}
+	}
+	// the iterator of a range-over-map loop: spec builtin visited(k)
+	for _, ins := range h.Instrs {
+		if nx, ok := ins.(*ssa.Next); ok && !nx.IsString {
+			if it, ok := fr.vals[nx.Iter]; ok && len(it.Fs) == 3 {
+				vars["$iter"] = it.Fs[1]
+				vars["$itermap"] = it.Fs[0]
 			}
 		}
 	}
@@ -383,9 +409,32 @@ func (x *Exec) loopEnter(st *State, fr *Frame, h *ssa.BasicBlock, prev *ssa.Basi
 	// havoc
 	blocks := loopBlocks(h)
 	mods, all := x.loopMods(st, fr.fn, blocks, 0)
+	// callees that modify everything except the fields of some struct types: what all of them spare is spared
+	var except []string
+	nExcept := 0
+	for c := range mods {
+		if strings.HasPrefix(c, "\x00allexcept\x00") {
+			ts := strings.Split(c[len("\x00allexcept\x00"):], ",")
+			if nExcept == 0 {
+				except = ts
+			} else {
+				var both []string
+				for _, t := range except {
+					if contains(ts, t) {
+						both = append(both, t)
+					}
+				}
+				except = both
+			}
+			nExcept++
+		}
+	}
 	if all {
 		st.havocAll()
 	} else {
+		if nExcept > 0 {
+			st.havocAllExcept(except)
+		}
 		for c := range mods {
 			if _, ok := x.w.classes[c]; ok {
 				st.havocClass(c)
